@@ -204,13 +204,170 @@ Proof.
     cbn [enc_body type_of flags_of]. rewrite (tail_canonical r tl Hb E). auto.
 Qed.
 
+Lemma bit_lt256 fl : all_bytes [fl] = true -> fl < 256.
+Proof. unfold all_bytes, is_byte. cbn [forallb]. lia. Qed.
+
 Lemma connect_canonical v idw r b :
   all_bytes r = true -> decode_body v idw 1 0 r = Some b -> enc_body v idw b = r /\ type_of b = 1 /\ flags_of b = 0.
 Proof.
   intro Hb. unfold decode_body. ttest 1 1. cbv iota. change (0 =? 0) with true. cbv iota. unfold dec_connect.
-  destruct r as [|b0 r]; [discriminate|]. destruct b0; [|discriminate].
-  destruct r as [|b1 r]; [discriminate|]. destruct (N.eq_dec b1 4) as [->|N1]; [|destruct b1 as [|[[[|]|[|]|]|[[|]|[|]|]|]]; try discriminate; exfalso; apply N1; reflexivity].
-  destruct r as [|b2 r]; [discriminate|]. destruct (N.eq_dec b2 77) as [->|N2];
-    [|intro H; exfalso; revert H; destruct b2 as [|p]; [discriminate|];
-      repeat (destruct p as [p|p|]; try discriminate); exfalso; apply N2; reflexivity].
-Abort.
+  destruct r as [|b0 [|b1 [|b2 [|b3 [|b4 [|b5 [|lv [|fl t]]]]]]]]; try discriminate.
+  destruct (nlist_eqb _ _) eqn:Eh; cbn [negb]; [|discriminate]. apply nlist_eqb_eq in Eh. inversion Eh; subst. clear Eh.
+  assert (Hfl : fl < 256 /\ all_bytes t = true).
+  { unfold all_bytes, is_byte in *. cbn [forallb] in Hb. repeat (apply andb_true_iff in Hb as [? Hb]). split; [lia|exact Hb]. }
+  destruct Hfl as [Hfl Hbt].
+  destruct (bit fl 0) eqn:B0; [discriminate|].
+  destruct (dec_u16 t) as [[ka t1]|] eqn:E1; cbn [obind]; [|discriminate].
+  destruct (u16_canonical t ka t1 Hbt E1) as [H1 _]. pose proof (suffix_bytes _ _ _ H1 Hbt) as Hb1.
+  destruct (dec_vprops v t1) as [[ps t2]|] eqn:E2; cbn [obind]; [|discriminate].
+  pose proof (vprops_canonical v t1 ps t2 Hb1 E2) as H2. pose proof (suffix_bytes _ _ _ H2 Hb1) as Hb2.
+  destruct (dec_str t2) as [[cid t3]|] eqn:E3; cbn [obind]; [|discriminate].
+  destruct (str_canonical t2 cid t3 Hb2 E3) as [H3 _]. pose proof (suffix_bytes _ _ _ H3 Hb2) as Hb3.
+  (* will *)
+  assert (HW : forall w t4,
+             (if bit fl 2 then
+                do '(wps, t) <- dec_vprops v t3; do '(wt, t) <- dec_str t; do '(wp, t) <- dec_lp t;
+                Some (Some (mkWill ((fl / 8) mod 4) (bit fl 5) wps wt wp), t)
+              else if negb ((fl / 8) mod 4 =? 0) || bit fl 5 then None else Some (None, t3)) = Some (w, t4) ->
+             t3 = match w with Some x => enc_will v x | None => [] end ++ t4 /\ all_bytes t4 = true /\
+             (if bit fl 2 then 4 + ((fl / 8) mod 4) * 8 + (if bit fl 5 then 32 else 0) else 0)
+             = match w with Some x => 4 + w_qos x * 8 + (if w_retain x then 32 else 0) | None => 0 end /\
+             (bit fl 2 = false -> (fl / 8) mod 4 = 0 /\ bit fl 5 = false)).
+  { intros w t4. destruct (bit fl 2) eqn:B2.
+    - destruct (dec_vprops v t3) as [[wps u1]|] eqn:W1; cbn [obind]; [|discriminate].
+      pose proof (vprops_canonical v t3 wps u1 Hb3 W1) as K1. pose proof (suffix_bytes _ _ _ K1 Hb3) as Kb1.
+      destruct (dec_str u1) as [[wt u2]|] eqn:W2; cbn [obind]; [|discriminate].
+      destruct (str_canonical u1 wt u2 Kb1 W2) as [K2 _]. pose proof (suffix_bytes _ _ _ K2 Kb1) as Kb2.
+      destruct (dec_lp u2) as [[wp u3]|] eqn:W3; cbn [obind]; [|discriminate].
+      destruct (lp_canonical u2 wp u3 Kb2 W3) as [K3 _]. pose proof (suffix_bytes _ _ _ K3 Kb2) as Kb3.
+      intro H. injection H as Hw Ht4. rewrite <- Hw, <- Ht4. unfold enc_will. cbn [w_props w_topic w_payload w_qos w_retain].
+      split; [rewrite <- !app_assoc, <- K3, <- K2; exact K1|]. split; [exact Kb3|]. split; [reflexivity|discriminate].
+    - destruct (negb ((fl / 8) mod 4 =? 0) || bit fl 5) eqn:Eq; [discriminate|].
+      intro H. injection H as Hw Ht4. rewrite <- Hw, <- Ht4. apply orb_false_iff in Eq as [Q1 Q2]. apply negb_false_iff in Q1. apply N.eqb_eq in Q1.
+      split; [reflexivity|]. split; [exact Hb3|]. split; [reflexivity|]. intros _. auto. }
+  match goal with |- obind ?X _ = _ -> _ => destruct X as [[w t4]|] eqn:EW end; cbn [obind]; [|discriminate].
+  destruct (HW w t4 eq_refl) as (H4 & Hb4 & Hwf & Hnw). clear HW.
+  (* user name, password *)
+  destruct (bit fl 7) eqn:B7.
+  - destruct (dec_str t4) as [[u t5]|] eqn:E5; cbn [obind]; [|discriminate].
+    destruct (str_canonical t4 u t5 Hb4 E5) as [H5 _]. pose proof (suffix_bytes _ _ _ H5 Hb4) as Hb5.
+    destruct (bit fl 6) eqn:B6.
+    + destruct (dec_lp t5) as [[pw t6]|] eqn:E6; cbn [obind]; [|discriminate].
+      destruct (lp_canonical t5 pw t6 Hb5 E6) as [H6 _]. destruct t6; [|discriminate]. intro H; inversion H; subst b.
+      cbn [enc_body type_of flags_of]. split; [|auto].
+      assert (Hcf : connect_flags (bit fl 1) w (Some u) (Some pw) = fl).
+      { unfold connect_flags. rewrite <- Hwf. pose proof (connect_flags_rebuild fl Hfl B0 Hnw) as R. unfold cf_rebuild in R.
+        rewrite B7, B6 in R. lia. }
+      rewrite Hcf. cbn [app]. rewrite app_nil_r in H6. rewrite <- H6, <- H5, <- H4, <- H3, <- H2. cbn [app]. now rewrite <- H1.
+    + cbn [obind]. destruct t5; [|discriminate]. intro H; inversion H; subst b.
+      cbn [enc_body type_of flags_of]. split; [|auto].
+      assert (Hcf : connect_flags (bit fl 1) w (Some u) None = fl).
+      { unfold connect_flags. rewrite <- Hwf. pose proof (connect_flags_rebuild fl Hfl B0 Hnw) as R. unfold cf_rebuild in R.
+        rewrite B7, B6 in R. lia. }
+      rewrite Hcf. cbn [app]. rewrite app_nil_r in H5. rewrite app_nil_r, <- H5, <- H4, <- H3, <- H2. cbn [app]. now rewrite <- H1.
+  - cbn [obind]. destruct (bit fl 6) eqn:B6.
+    + destruct (dec_lp t4) as [[pw t6]|] eqn:E6; cbn [obind]; [|discriminate].
+      destruct (lp_canonical t4 pw t6 Hb4 E6) as [H6 _]. destruct t6; [|discriminate]. intro H; inversion H; subst b.
+      cbn [enc_body type_of flags_of]. split; [|auto].
+      assert (Hcf : connect_flags (bit fl 1) w None (Some pw) = fl).
+      { unfold connect_flags. rewrite <- Hwf. pose proof (connect_flags_rebuild fl Hfl B0 Hnw) as R. unfold cf_rebuild in R.
+        rewrite B7, B6 in R. lia. }
+      rewrite Hcf. cbn [app]. rewrite app_nil_r in H6. rewrite <- H6, <- H4, <- H3, <- H2. cbn [app]. now rewrite <- H1.
+    + cbn [obind]. destruct t4; [|discriminate]. intro H; inversion H; subst b.
+      cbn [enc_body type_of flags_of]. split; [|auto].
+      assert (Hcf : connect_flags (bit fl 1) w None None = fl).
+      { unfold connect_flags. rewrite <- Hwf. pose proof (connect_flags_rebuild fl Hfl B0 Hnw) as R. unfold cf_rebuild in R.
+        rewrite B7, B6 in R. lia. }
+      rewrite Hcf. cbn [app]. rewrite app_nil_r in H4. rewrite !app_nil_r, <- H4, <- H3, <- H2. cbn [app]. now rewrite <- H1.
+Qed.
+
+Lemma pings_canonical v idw t r b :
+  t = 12 \/ t = 13 -> decode_body v idw t 0 r = Some b -> enc_body v idw b = r /\ type_of b = t /\ flags_of b = 0.
+Proof.
+  intros [-> | ->]; unfold decode_body.
+  - ttest 12 1. ttest 12 2. ttest 12 3. change ((4 <=? 12) && (12 <=? 7)) with false. ttest 12 8. ttest 12 9. ttest 12 10.
+    ttest 12 11. ttest 12 12. cbv iota. destruct r; [|discriminate]. intro H; inversion H; subst. cbn. auto.
+  - ttest 13 1. ttest 13 2. ttest 13 3. change ((4 <=? 13) && (13 <=? 7)) with false. ttest 13 8. ttest 13 9. ttest 13 10.
+    ttest 13 11. ttest 13 12. ttest 13 13. cbv iota. destruct r; [|discriminate]. intro H; inversion H; subst. cbn. auto.
+Qed.
+
+(* every kind *)
+Lemma body_canonical v idw t fl r b :
+  all_bytes r = true -> fl < 16 -> decode_body v idw t fl r = Some b ->
+  enc_body v idw b = r /\ type_of b = t /\ flags_of b = fl.
+Proof.
+  intros Hb Hfl H.
+  assert (Hcases : t = 1 \/ t = 2 \/ t = 3 \/ ((4 <=? t) && (t <=? 7) = true) \/ t = 8 \/ t = 9 \/ t = 10 \/ t = 11 \/ t = 12 \/
+                   t = 13 \/ t = 14 \/ t = 15 \/ (t = 0 \/ 16 <= t)) by lia.
+  destruct Hcases as [->|[->|[->|[Hr|[->|[->|[->|[->|[->|[->|[->|[->|Hout]]]]]]]]]]]].
+  - (* CONNECT: flags must be 0 *)
+    assert (fl = 0).
+    { unfold decode_body in H. revert H. ttest 1 1. cbv iota. destruct (fl =? 0) eqn:E; [intros _; now apply N.eqb_eq in E|discriminate]. }
+    subst fl. now apply connect_canonical.
+  - assert (fl = 0).
+    { unfold decode_body in H. revert H. ttest 2 1. ttest 2 2. cbv iota. destruct (fl =? 0) eqn:E; cbn [negb]; [intros _; now apply N.eqb_eq in E|discriminate]. }
+    subst fl. now apply connack_canonical.
+  - now apply publish_canonical.
+  - now apply ack_canonical.
+  - assert (fl = 2).
+    { unfold decode_body in H. revert H. ttest 8 1. ttest 8 2. ttest 8 3. change ((4 <=? 8) && (8 <=? 7)) with false. ttest 8 8. cbv iota.
+      destruct (fl =? 2) eqn:E; cbn [negb]; [intros _; now apply N.eqb_eq in E|discriminate]. }
+    subst fl. now apply subscribe_canonical.
+  - assert (fl = 0).
+    { unfold decode_body in H. revert H. ttest 9 1. ttest 9 2. ttest 9 3. change ((4 <=? 9) && (9 <=? 7)) with false. ttest 9 8. ttest 9 9. cbv iota.
+      destruct (fl =? 0) eqn:E; cbn [negb]; [intros _; now apply N.eqb_eq in E|discriminate]. }
+    subst fl. apply suback_like_canonical; auto.
+  - assert (fl = 2).
+    { unfold decode_body in H. revert H. ttest 10 1. ttest 10 2. ttest 10 3. change ((4 <=? 10) && (10 <=? 7)) with false. ttest 10 8.
+      ttest 10 9. ttest 10 10. cbv iota. destruct (fl =? 2) eqn:E; cbn [negb]; [intros _; now apply N.eqb_eq in E|discriminate]. }
+    subst fl. now apply unsubscribe_canonical.
+  - assert (fl = 0).
+    { unfold decode_body in H. revert H. ttest 11 1. ttest 11 2. ttest 11 3. change ((4 <=? 11) && (11 <=? 7)) with false. ttest 11 8.
+      ttest 11 9. ttest 11 10. ttest 11 11. cbv iota. destruct (fl =? 0) eqn:E; cbn [negb]; [intros _; now apply N.eqb_eq in E|discriminate]. }
+    subst fl. apply suback_like_canonical; auto.
+  - assert (fl = 0).
+    { unfold decode_body in H. revert H. ttest 12 1. ttest 12 2. ttest 12 3. change ((4 <=? 12) && (12 <=? 7)) with false. ttest 12 8.
+      ttest 12 9. ttest 12 10. ttest 12 11. ttest 12 12. cbv iota. destruct fl; [reflexivity|discriminate]. }
+    subst fl. apply pings_canonical; auto.
+  - assert (fl = 0).
+    { unfold decode_body in H. revert H. ttest 13 1. ttest 13 2. ttest 13 3. change ((4 <=? 13) && (13 <=? 7)) with false. ttest 13 8.
+      ttest 13 9. ttest 13 10. ttest 13 11. ttest 13 12. ttest 13 13. cbv iota. destruct fl; [reflexivity|discriminate]. }
+    subst fl. apply pings_canonical; auto.
+  - assert (fl = 0).
+    { unfold decode_body in H. revert H. ttest 14 1. ttest 14 2. ttest 14 3. change ((4 <=? 14) && (14 <=? 7)) with false. ttest 14 8.
+      ttest 14 9. ttest 14 10. ttest 14 11. ttest 14 12. ttest 14 13. ttest 14 14. cbv iota.
+      destruct (fl =? 0) eqn:E; cbn [negb]; [intros _; now apply N.eqb_eq in E|discriminate]. }
+    subst fl. apply tailed_canonical; auto.
+  - assert (fl = 0).
+    { unfold decode_body in H. revert H. ttest 15 1. ttest 15 2. ttest 15 3. change ((4 <=? 15) && (15 <=? 7)) with false. ttest 15 8.
+      ttest 15 9. ttest 15 10. ttest 15 11. ttest 15 12. ttest 15 13. ttest 15 14. ttest 15 15. cbv iota.
+      destruct (fl =? 0) eqn:E; cbn [negb orb]; [intros _; now apply N.eqb_eq in E|discriminate]. }
+    subst fl. apply tailed_canonical; auto.
+  - exfalso. unfold decode_body in H.
+    assert (t =? 1 = false) by lia. assert (t =? 2 = false) by lia. assert (t =? 3 = false) by lia.
+    assert ((4 <=? t) && (t <=? 7) = false) by lia. assert (t =? 8 = false) by lia. assert (t =? 9 = false) by lia.
+    assert (t =? 10 = false) by lia. assert (t =? 11 = false) by lia. assert (t =? 12 = false) by lia.
+    assert (t =? 13 = false) by lia. assert (t =? 14 = false) by lia. assert (t =? 15 = false) by lia.
+    repeat match goal with E : _ = false |- _ => rewrite E in H; clear E end. discriminate.
+Qed.
+
+(* C04: accepted input is canonical — every byte list the reference decoder accepts as a control
+   packet IS the reference encoding of the packet it returns (and that packet is builder-valid) *)
+Theorem decode_canonical v idw l b :
+  all_bytes l = true -> decode v idw l = Some b -> encode v idw b = l /\ packet_ok v idw b = true.
+Proof.
+  intros Hb. unfold decode. destruct l as [|h t]; [discriminate|].
+  destruct (vbi_dec t) as [[rl r]|] eqn:E; cbn [obind]; [|discriminate].
+  destruct (N.of_nat (length r) =? rl) eqn:El; cbn [negb]; [|discriminate]. apply N.eqb_eq in El.
+  destruct (decode_body v idw (h / 16) (h mod 16) r) as [b'|] eqn:Ed; cbn [obind]; [|discriminate].
+  destruct (body_ok v idw b') eqn:Eo; [|discriminate]. intro H; inversion H; subst b'. clear H.
+  assert (Hh : h < 256 /\ all_bytes t = true).
+  { unfold all_bytes, is_byte in *. cbn [forallb] in Hb. apply andb_true_iff in Hb as [H1 H2]. split; [lia|exact H2]. }
+  destruct Hh as [Hh Hbt].
+  destruct (vbi_dec_canonical t rl r Hbt E) as [Ht Hrl]. pose proof (suffix_bytes _ _ _ Ht Hbt) as Hbr.
+  assert (Hfl : h mod 16 < 16) by lia.
+  destruct (body_canonical v idw (h / 16) (h mod 16) r b Hbr Hfl Ed) as (Hbody & Hty & Hflg).
+  split.
+  - unfold encode. cbv zeta. rewrite Hbody, Hty, Hflg, El. rewrite <- Ht. f_equal. lia.
+  - unfold packet_ok. rewrite Eo, Hbody, El. cbn [andb]. unfold VBI_MAX in *. lia.
+Qed.
